@@ -99,7 +99,7 @@ def selftest_cached(seed):
     for c in ("tx3-tir", "tx3-cardano", "tx3-resolver", "tx3-lang"):
         h.update(mirdump.src_hash(c, "on").encode())
     V = os.path.dirname(os.path.dirname(os.path.abspath(__file__)))
-    for f in sorted(glob.glob(os.path.join(V, "mirsym", "*.py")) + glob.glob(os.path.join(V, "lib", "selftest.py")) + glob.glob(os.path.join(V, "replay", "src", "*.rs")) + glob.glob(os.path.join(V, "corpus", "*.tx3"))):
+    for f in sorted(glob.glob(os.path.join(V, "mirsym", "*.py")) + glob.glob(os.path.join(V, "lib", "selftest.py")) + glob.glob(os.path.join(V, "replay", "src", "*.rs")) + glob.glob(os.path.join(V, "corpus", "*.tx3")) + glob.glob(os.path.join(V, "harness", "*.py"))):
         h.update(open(f, "rb").read())
     key = h.hexdigest()[:16]
     path = os.path.join(V, ".cache", "selftest.%s.json" % key)
@@ -112,7 +112,8 @@ def selftest_cached(seed):
         r = selftest.run_all(seed)
     except Exception as e:
         r = dict(vectors=0, disagreements=[("selftest crashed", "%s: %s" % (type(e).__name__, str(e)[:300]))], wall_s=0)
-    json.dump(r, open(path, "w"), default=str)
+    if not any("selftest crashed" in str(d) for d in r["disagreements"]):      # a crash of the machinery is not a result to keep
+        json.dump(r, open(path, "w"), default=str)
     return r
 
 
